@@ -48,7 +48,7 @@ Definition wrapped_overflow_add (a b : si) : res bool :=
   do m <- si_max_int (bits a);
   Ok (m + 1 <? ca + cb).
 
-Definition add (a b : si) : res si :=
+Definition si_add (a b : si) : res si :=
   if negb (bits a =? bits b) then Err Unmodelled else
   let nb := Z.max (bits a) (bits b) in
   do ov <- wrapped_overflow_add a b;
@@ -58,7 +58,7 @@ Definition add (a b : si) : res si :=
   do r <- mk nb (Z.gcd (stride a) (stride b)) l u;
   normalize r.
 
-Definition sub (a b : si) : res si :=
+Definition si_sub (a b : si) : res si :=
   if negb (bits a =? bits b) then Err Unmodelled else
   let nb := Z.max (bits a) (bits b) in
   do ov <- wrapped_overflow_add a b;
@@ -68,9 +68,9 @@ Definition sub (a b : si) : res si :=
   do r <- mk nb (Z.gcd (stride a) (stride b)) l u;
   normalize r.
 
-Definition neg (a : si) : res si :=
+Definition si_neg (a : si) : res si :=
   do z <- mk (bits a) 0 0 0;
-  sub z a.
+  si_sub z a.
 
 (* -------- members -------- *)
 
@@ -91,3 +91,10 @@ Definition members (a : si) : list Z :=
 Definition wf (a : si) : Prop :=
   bot a = false /\ 0 < bits a < SHIFT_LIMIT /\ 0 <= stride a /\
   0 <= lb a < 2 ^ bits a /\ 0 <= ub a < 2 ^ bits a.
+
+(* StridedInterval.cardinality *)
+Definition cardinality (a : si) : res Z :=
+  if bot a then Ok 0 else
+  if is_integer a then Ok 1 else
+  do d <- si_modular_sub (ub a) (lb a) (bits a);
+  py_floordiv (d + stride a) (stride a).
